@@ -96,6 +96,16 @@ pub fn run_one(b: u64, kind: &str, labels: &[String], seed: u64) -> Value {
             _ => {
                 let s = salt2.as_deref();
                 let good = crypto::sign_mutable(&victim, seq, &mval, s).to_vec();
+                if lb == "replay_of_authentic" {
+                    // same k, seq and signature as the first authentic responder's item, different value, arriving later
+                    let j = labels2.iter().position(|l| l == "authentic").unwrap_or(i);
+                    let jval = format!("mutable value from responder {j}").into_bytes();
+                    let jseq = 10 + j as i64;
+                    let jsig = crypto::sign_mutable(&victim, jseq, &jval, s).to_vec();
+                    let forged = format!("forged value replaying responder {j} sent by {i}").into_bytes();
+                    let extra = vec![("v", B::bytes(forged)), ("k", B::bytes(pk)), ("sig", B::bytes(jsig)), ("seq", B::Int(jseq as i128))];
+                    return Reply::One(lookup_reply(&nodes, me, m, w, &extra, true), 60 + 3 * me.idx as u64);
+                }
                 let (k, v, sq, sig): (Vec<u8>, Vec<u8>, i64, Vec<u8>) = match lb {
                     "authentic" => (pk.to_vec(), mval.clone(), seq, good),
                     // a perfectly valid item of ANOTHER key
